@@ -76,6 +76,9 @@ struct Scn {
     /// outstanding (every Ping so far answered and the answer processed; nothing on the wire): a stopped or suspended
     /// process, a paused VM. Several ticks of the interval are missed; a peer that answers at once is still alive
     idle_stall_ms: u64,
+    /// the application builds the Multiplexor and starts (first polls) its connection task only this much later (ms):
+    /// start-up, for the keepalive, is the moment the task starts
+    late_start_ms: u64,
 }
 
 fn od(ms: u64) -> OptionalDuration {
@@ -130,6 +133,10 @@ async fn run_async(sc: &Scn, render: bool) -> RunOutput {
     let cfg = SideCfg { opts: o, rng: vec![] };
     let mut w = World::one(if sc.hung_tail { 2 } else { UNBOUNDED_CAP }, 0, &cfg);
     let mut raw = Raw::new(1, w.sim.link.clone());
+    if sc.late_start_ms > 0 {
+        tokio::time::advance(Duration::from_millis(sc.late_start_ms)).await;
+    }
+    let t0 = Instant::now();
     let hang = std::rc::Rc::new(tokio::sync::Notify::new());
     let mut hung_at: Option<Duration> = None;
     if sc.hung_tail {
@@ -420,7 +427,7 @@ pub fn run(args: &Args) -> Report {
                 if interval == 0 && (code != 0 || prompt_tail) {
                     continue;
                 }
-                let sc = Scn { interval, timeout, rounds: hist.clone(), prompt_tail, hung_tail: false, peer_pings: false, jitter: false, late_ms: 2, half_tail: false, timeout_first: false, idle_stall_ms: 0 };
+                let sc = Scn { interval, timeout, rounds: hist.clone(), prompt_tail, hung_tail: false, peer_pings: false, jitter: false, late_ms: 2, half_tail: false, timeout_first: false, idle_stall_ms: 0, late_start_ms: 0 };
                 let label = format!("I={interval}ms T={}ms history={hist:?} then {}", if timeout == 0 { "NONE".to_string() } else { timeout.to_string() }, if prompt_tail { "prompt" } else { "silent" });
                 cases.push(Case { try_unbounded: false, max_k: u32::MAX, label, exec: Box::new(move |r| exec(&sc, r)) });
             }
@@ -436,7 +443,7 @@ pub fn run(args: &Args) -> Report {
             let total = 2usize.pow(len as u32);
             for code in 0..total {
                 let hist: Vec<Delay> = (0..len).map(|r| if (code >> r) & 1 == 0 { Delay::Zero } else { Delay::Half }).collect();
-                let sc = Scn { interval, timeout, rounds: hist.clone(), prompt_tail: false, hung_tail: true, peer_pings: false, jitter: false, late_ms: 2, half_tail: false, timeout_first: false, idle_stall_ms: 0 };
+                let sc = Scn { interval, timeout, rounds: hist.clone(), prompt_tail: false, hung_tail: true, peer_pings: false, jitter: false, late_ms: 2, half_tail: false, timeout_first: false, idle_stall_ms: 0, late_start_ms: 0 };
                 let label = format!("I={interval}ms T={}ms history={hist:?} then the peer hangs (reads nothing), send side congested", if timeout == 0 { "NONE".to_string() } else { timeout.to_string() });
                 cases.push(Case { try_unbounded: false, max_k: u32::MAX, label, exec: Box::new(move |r| exec(&sc, r)) });
             }
@@ -448,7 +455,7 @@ pub fn run(args: &Args) -> Report {
             continue;
         }
         for (hist, prompt_tail) in [(vec![], false), (vec![Delay::Zero, Delay::Zero], false), (vec![Delay::Zero, Delay::Half, Delay::Zero], true)] {
-            let sc = Scn { interval, timeout, rounds: hist.clone(), prompt_tail, hung_tail: false, peer_pings: false, jitter: false, late_ms: 2, half_tail: false, timeout_first: true, idle_stall_ms: 0 };
+            let sc = Scn { interval, timeout, rounds: hist.clone(), prompt_tail, hung_tail: false, peer_pings: false, jitter: false, late_ms: 2, half_tail: false, timeout_first: true, idle_stall_ms: 0, late_start_ms: 0 };
             let label = format!("I={interval}ms T={timeout}ms (timeout set BEFORE the interval) history={hist:?} then {}", if prompt_tail { "prompt" } else { "silent" });
             cases.push(Case { try_unbounded: false, max_k: u32::MAX, label, exec: Box::new(move |r| exec(&sc, r)) });
         }
@@ -458,7 +465,7 @@ pub fn run(args: &Args) -> Report {
         if interval == 0 {
             continue;
         }
-        let sc = Scn { interval, timeout, rounds: vec![Delay::Zero; 3], prompt_tail: true, hung_tail: false, peer_pings: false, jitter: true, late_ms: 2, half_tail: false, timeout_first: false, idle_stall_ms: 0 };
+        let sc = Scn { interval, timeout, rounds: vec![Delay::Zero; 3], prompt_tail: true, hung_tail: false, peer_pings: false, jitter: true, late_ms: 2, half_tail: false, timeout_first: false, idle_stall_ms: 0, late_start_ms: 0 };
         let label = format!("I={interval}ms T={}ms every Ping answered at once; one poll of the connection task comes 2 ms late", if timeout == 0 { "NONE".to_string() } else { timeout.to_string() });
         cases.push(Case { try_unbounded: false, max_k: 0, label, exec: Box::new(move |r| exec(&sc, r)) });
     }
@@ -468,9 +475,24 @@ pub fn run(args: &Args) -> Report {
         if interval == 0 {
             continue;
         }
-        let sc = Scn { interval, timeout, rounds: vec![Delay::Zero; 3], prompt_tail: true, hung_tail: false, peer_pings: false, jitter: false, late_ms: 2, half_tail: false, timeout_first: false, idle_stall_ms: interval * 16 / 5 };
+        let sc = Scn { interval, timeout, rounds: vec![Delay::Zero; 3], prompt_tail: true, hung_tail: false, peer_pings: false, jitter: false, late_ms: 2, half_tail: false, timeout_first: false, idle_stall_ms: interval * 16 / 5, late_start_ms: 0 };
         let label = format!("I={interval}ms T={}ms every Ping answered at once; the idle process is frozen once for {} ms with no Ping outstanding", if timeout == 0 { "NONE".to_string() } else { timeout.to_string() }, sc.idle_stall_ms);
         cases.push(Case { try_unbounded: false, max_k: 0, label, exec: Box::new(move |r| exec(&sc, r)) });
+    }
+    // the connection task is started (first polled) later than the Multiplexor was built: by a little, by more than
+    // the timeout, by several timeouts; the peer answers every Ping at once, resp. never
+    for &(interval, timeout) in &cfgs2 {
+        if interval == 0 {
+            continue;
+        }
+        let t = if timeout == 0 { interval } else { timeout.max(interval) };
+        for late in [t / 2, t + 1, 3 * t + 7] {
+            for prompt_tail in [true, false] {
+                let sc = Scn { interval, timeout, rounds: vec![], prompt_tail, hung_tail: false, peer_pings: false, jitter: false, late_ms: 2, half_tail: false, timeout_first: false, idle_stall_ms: 0, late_start_ms: late };
+                let label = format!("I={interval}ms T={}ms connection task started {late} ms after the Multiplexor was built; peer {}", if timeout == 0 { "NONE".to_string() } else { timeout.to_string() }, if prompt_tail { "answers every Ping at once" } else { "never answers" });
+                cases.push(Case { try_unbounded: false, max_k: 0, label, exec: Box::new(move |r| exec(&sc, r)) });
+            }
+        }
     }
     // (Stalls of the thread that runs the connection task for a sizeable part of an interval -- `late_ms` well above timer
     // jitter -- are NOT enumerated: C16 quantifies over pong histories, not over scheduling outages of the endpoint
@@ -488,7 +510,7 @@ pub fn run(args: &Args) -> Report {
             for code in 0..total {
                 let hist: Vec<Delay> = (0..len).map(|r| if (code >> r) & 1 == 0 { Delay::Zero } else { Delay::Half }).collect();
                 for prompt_tail in [false, true] {
-                    let sc = Scn { interval, timeout, rounds: hist.clone(), prompt_tail, hung_tail: false, peer_pings: true, jitter: false, late_ms: 2, half_tail: false, timeout_first: false, idle_stall_ms: 0 };
+                    let sc = Scn { interval, timeout, rounds: hist.clone(), prompt_tail, hung_tail: false, peer_pings: true, jitter: false, late_ms: 2, half_tail: false, timeout_first: false, idle_stall_ms: 0, late_start_ms: 0 };
                     let label = format!("I={interval}ms T={}ms history={hist:?} then {}; the peer sends its own Ping every interval throughout", if timeout == 0 { "NONE".to_string() } else { timeout.to_string() }, if prompt_tail { "prompt" } else { "silent" });
                     cases.push(Case { try_unbounded: false, max_k: u32::MAX, label, exec: Box::new(move |r| exec(&sc, r)) });
                 }
